@@ -37,9 +37,21 @@ struct Probe : public EstimatesExtraction {
     Probe(std::size_t lin, std::size_t circ) : EstimatesExtraction(lin, circ) {}
     MatrixXd history() const { return hist_buffer_.getHistoryBuffer(); }
     long window() const { return hist_buffer_.getHistorySize(); }
-    const VectorXd& smw() const { return sm_weights_; }
-    const VectorXd& wmw() const { return wm_weights_; }
-    const VectorXd& emw() const { return em_weights_; }
+    // The cached weight vectors are read if the members exist under these names (SFINAE): a refactoring that
+    // renames or merges them must not stop the harness from compiling; the oracle then falls back to the
+    // estimates alone (caches_reachable = 0).
+    template <class T> static auto rd_sm(const T& t, int) -> decltype(VectorXd(t.sm_weights_)) { return t.sm_weights_; }
+    template <class T> static VectorXd rd_sm(const T&, long) { return VectorXd(0); }
+    template <class T> static auto rd_wm(const T& t, int) -> decltype(VectorXd(t.wm_weights_)) { return t.wm_weights_; }
+    template <class T> static VectorXd rd_wm(const T&, long) { return VectorXd(0); }
+    template <class T> static auto rd_em(const T& t, int) -> decltype(VectorXd(t.em_weights_)) { return t.em_weights_; }
+    template <class T> static VectorXd rd_em(const T&, long) { return VectorXd(0); }
+    template <class T> static auto has_all(const T& t, int) -> decltype(t.sm_weights_, t.wm_weights_, t.em_weights_, int()) { return 1; }
+    template <class T> static int has_all(const T&, long) { return 0; }
+    VectorXd smw() const { return rd_sm(*this, 0); }
+    VectorXd wmw() const { return rd_wm(*this, 0); }
+    VectorXd emw() const { return rd_em(*this, 0); }
+    int caches_reachable() const { return has_all(*this, 0); }
     long method() const { return static_cast<long>(extraction_method_); }
 };
 
@@ -143,6 +155,7 @@ static void run_est(const vf::Case& c) {
         }
         vf::out_int("info_window", w);
     }
+    vf::out_int("caches_reachable", ee.caches_reachable());
     vf::out_end();
 }
 
